@@ -85,7 +85,7 @@ class _ParseTimeout(BaseException):
     pass
 
 
-DECODE_LIMIT = 8.0      # wall seconds for ONE frame of at most a few KiB (the real decoders need well under a millisecond)
+DECODE_LIMIT = 8.0      # CPU seconds for ONE frame of at most a few KiB (the real decoders need well under a millisecond)
 
 
 def eval_decode(args):
@@ -95,17 +95,17 @@ def eval_decode(args):
 
     def on_alarm(_sig, _frm):
         raise _ParseTimeout()
-    old = signal.signal(signal.SIGALRM, on_alarm)
-    signal.setitimer(signal.ITIMER_REAL, DECODE_LIMIT)
-    t0 = time.perf_counter()
+    old = signal.signal(signal.SIGPROF, on_alarm)          # CPU time of this process: machine load is not the code's fault
+    signal.setitimer(signal.ITIMER_PROF, DECODE_LIMIT)
+    t0 = time.process_time()
     try:
         r = wc.impl_decode(m, table, fam, d, frame)
     except _ParseTimeout:
         r = 'HANG'                      # parsing did not terminate: stopped by the harness
     finally:
-        signal.setitimer(signal.ITIMER_REAL, 0)
-        signal.signal(signal.SIGALRM, old)
-    dt = time.perf_counter() - t0
+        signal.setitimer(signal.ITIMER_PROF, 0)
+        signal.signal(signal.SIGPROF, old)
+    dt = time.process_time() - t0
     if '_ParseTimeout' in r:            # (the decode wrapper reports any BaseException as "fatal <class>")
         r = 'HANG'
     return r, dt, wc.inflate_arg(frame, fam)
